@@ -157,7 +157,9 @@ ALLOC_TABLE = {
     "LengthDelimited as Sink::start_send|alloc:BytesMut::reserve#1": {"need": [["MAX_FRAME_SIZE", ">=", "len"]], "why": "outgoing frame, bounded by MAX_FRAME_SIZE"},
     "Substream as Stream::poll_next|alloc:BytesMut::zeroed#1": {"need": [["this.codec", "is", "Identity"]], "why": "locally configured identity frame size"},
     "Substream as Stream::poll_next|alloc:BytesMut::zeroed#2": {"need": [["max_size", ">=", "size"]], "unless_none": r"max_size|UnsignedVarint",
-        "why": "remote-chosen length compared with the codec maximum whenever one is configured (C04 R04.1)"},
+        "why": "remote-chosen length compared with the codec maximum whenever one is configured; without a maximum the up-front allocation is min(size, constant) (C04 R04.1, evaluated under C19 as well)"},
+    "Substream as Stream::poll_next|alloc:BytesMut::resize#1": {"min_with": r"UNBOUNDED_READ_CHUNK$",
+        "why": "the frame buffer grows by a constant step only when the bytes received so far have filled it: memory follows what the peer really sent"},
     "NoiseContext::read_handshake_message::{closure#0}|alloc:BytesMut::zeroed#2": {"type": "u16", "why": "handshake message length read as u16"},
     "NoiseContext::read_handshake_message::{closure#0}|alloc:BytesMut::resize#1": {"why": "message.len() + 200 with message = zeroed(size as usize), size: u16 (see zeroed#2)"},
     "NoiseContext::get_remote_peer_id|alloc:vec::from_elem#1": {"type": "u16", "why": "reply length prefix read as u16 (webrtc noise reply)"},
